@@ -974,7 +974,12 @@ func c11R5(p *Prog, r *Report) {
 		})
 		site := k + "/default:update branch"
 		if br == nil {
-			r.Bad(site, p.PosStr(fi.Decl.Pos()), "no branch for UseConstructor && DefaultUpdate: default:update would replace FUNC's result instead of updating it")
+			// the branch may be spelled as an early return for the other case: evaluate
+			if defaultUpdateEval(p, fi) {
+				r.OK(site, p.PosStr(fi.Decl.Pos()), "evaluated with UseConstructor and DefaultUpdate true: every successful return passed buildTargetVar, an IsUpdate() assignment and an emitted If(…)")
+			} else {
+				r.Bad(site, p.PosStr(fi.Decl.Pos()), "no branch for UseConstructor && DefaultUpdate: default:update would replace FUNC's result instead of updating it")
+			}
 			continue
 		}
 		// the branch body, plus the bodies of private helpers it delegates to
@@ -1010,6 +1015,9 @@ func c11R5(p *Prog, r *Report) {
 			})
 		}
 		hasTV := nTV == 1
+		if !(hasTV && hasUpd && guarded) && defaultUpdateEval(p, fi) {
+			hasTV, hasUpd, guarded = true, true, true
+		}
 		if hasTV && hasUpd && guarded {
 			r.OK(site, p.PosStr(br.Pos()), "FUNC's result, then If(source != nil){ update with the source }")
 		} else {
@@ -1179,4 +1187,53 @@ func (p *Prog) zeroGuardOf(info *types.Info, e ast.Expr) (zeroType, block string
 		return try(h.Pkg.TypesInfo, ret, subst)
 	}
 	return "", "", false
+}
+
+// defaultUpdateEval: with ctx.UseConstructor and ctx.Conf.DefaultUpdate true, every successful return of the builder
+// has called buildTargetVar (FUNC's result), made an update assignment (IsUpdate) and emitted an If(…) — the nil guard
+// around the update — on its path.
+func defaultUpdateEval(p *Prog, fi *FuncInfo) bool {
+	sf := p.SSAFunc(fi)
+	if sf == nil {
+		return false
+	}
+	nFlag := 0
+	sc := &absScenario{
+		assume: func(v ssa.Value, _ func(ssa.Value) absVal) (absVal, bool) {
+			if loadsFieldNamed(v, "UseConstructor") || loadsFieldNamed(v, "DefaultUpdate") {
+				nFlag++
+				return aBool(true), true
+			}
+			return aUnknown, false
+		},
+		marks: func(in ssa.Instruction) (string, bool) {
+			c, ok := in.(ssa.CallInstruction)
+			if !ok || ssaCalleeObj(c) == nil {
+				return "", false
+			}
+			o := ssaCalleeObj(c)
+			switch {
+			case isFunc(o, modPath+"/builder", "", "buildTargetVar"):
+				return "ctor", true
+			case o.Name() == "IsUpdate" && objPkgPath(o) == modPath+"/builder":
+				return "upd", true
+			case objPkgPath(o) == jenPath && o.Name() == "If":
+				return "if", true
+			}
+			return "", false
+		},
+		noInline: func(callee *ssa.Function) bool { return callee.Name() == "buildTargetVar" },
+	}
+	got := absReachState(sf, sc, func(ret *ssa.Return, eval func(ssa.Value) absVal, st map[string]absVal) bool {
+		if !successGoal(ret, eval) {
+			return false
+		}
+		for _, m := range []string{"@ctor", "@upd", "@if"} {
+			if v, ok := st[m]; !ok || !v.b {
+				return true
+			}
+		}
+		return false
+	})
+	return got == nil && nFlag >= 2
 }
